@@ -37,6 +37,8 @@ type World struct {
 	prog    *ssa.Program
 	ssaPkgs map[string]*ssa.Package
 	cg      *callgraph.Graph
+
+	ownerIdx *ownerIndex
 }
 
 func goEnv() []string {
